@@ -18,12 +18,14 @@ VARIABLES rid, done
 vars == <<rid, done>>
 
 \* results that take no part in the sequential explanation: refused as locked, or failed
-\* with an error (lock contention inside the commit surfaces as an exception)
-Out(r) == r = "Locked" \/ r \in {"Error:CommitError", "Error:FileLocked"}
+\* with an exception (lock contention inside the commit surfaces as CommitError, FileLocked or
+\* FileNotFoundError).  Such an operation must then have had no effect: the final state has to
+\* be explained by the remaining operations alone.
+Out(run, w) == run.res[w] = "Locked" \/ run.err[w]      \* err: the answer was an exception
 
 Verdict(run) ==
     LET ids == {"A", "B"}
-        counted == {w \in ids : ~Out(run.res[w])}
+        counted == {w \in ids : ~Out(run, w)}
         Never(a, b) == FALSE
         lin == ExplainsFrom(run.init, counted, run.ops, run.res, Never, run.final)
         a == run.ops.A   b == run.ops.B
@@ -38,12 +40,14 @@ Verdict(run) ==
             ELSE IF ~UidUniqueIn(run.final) THEN "duplicate-uid"
             ELSE IF bothok THEN "lost-update"
             ELSE "not-linearizable"
-        dev == "race:" \o run.kind \o ":" \o types \o ":" \o same \o ":" \o clause
+        \* the finding is identified by store kind, operation kinds, same/different name, the
+        \* violated clause and the phase in which the first writer was preempted
+        dev == "race:" \o run.kind \o ":" \o types \o ":" \o same \o ":" \o clause \o ":" \o run.phase
     IN  [id |-> run.id, clause |-> clause, dev |-> dev,
          k |-> IF clause = "ok" THEN "ok"
                ELSE IF clause = "stuck" THEN "note"
                ELSE IF dev \in EnabledDevs THEN "known" ELSE "viol",
-         errors |-> {w \in ids : Out(run.res[w]) /\ run.res[w] # "Locked"}]
+         errors |-> {w \in ids : run.err[w]}]
 
 Init == rid \in DOMAIN Runs /\ done = FALSE /\ TLCSet(1, {})
 Next == /\ ~done
